@@ -615,6 +615,10 @@ def _special_registration(ctx: Ctx):
                   f"/ literal properties are {want} (attribute names as generated)", flatten.P_PYUTILS, None,
                   sample={"case": label, "registered": got})
     ctx.floor("special-registration cases folded", len(res), 3)
+    got, want = flatten.fold_python_and_types(idx)
+    ctx.check(got == want, "and-types-get-their-class", "python:_add_and_types",
+              f"for three messages that use the same `and` combination the python plugin emits the classes {got}; every message "
+              f"needs its own: {want}", flatten.P_PYUTILS, None, sample={"classes": got})
 
 
 def run(ctx: Ctx):  # noqa: F811
